@@ -65,7 +65,7 @@ class Violation(Exception):
 
 class Result:
     __slots__ = ('status', 'nontrivial', 'classes', 'detail', 'sig',
-                 'dontcare')
+                 'dontcare', 'subcases', 'subcases_nontrivial')
 
     def __init__(self, status, nontrivial=False, classes=(), detail='',
                  sig=None, dontcare=False):
@@ -75,6 +75,9 @@ class Result:
         self.detail = detail
         self.sig = sig
         self.dontcare = dontcare
+        # a case that enumerates many placements internally reports them here
+        self.subcases = None
+        self.subcases_nontrivial = None
 
 
 def ok(nontrivial=False, classes=(), dontcare=False):
@@ -223,6 +226,16 @@ class Stats:
             self.dontcare += 1
         if res.status == 'skip':
             self.skipped[res.detail] += 1
+            return
+        if res.subcases is not None:
+            self.evaluations += res.subcases - 1
+            h = desc_hash(desc)
+            if h not in self.nontrivial and res.subcases_nontrivial:
+                self.nontrivial.add(h)
+                self.nontrivial_enum += res.subcases_nontrivial - 1
+                if len(self.samples) < 5 and len(self.nontrivial) in (
+                        1, 7, 50, 300, 2000):
+                    self.samples.append(abbreviate(desc))
             return
         if res.nontrivial and enumerated:
             self.nontrivial_enum += 1
